@@ -5,12 +5,24 @@ use std::{
 };
 
 use allocative::Allocative;
+#[cfg(not(all(kani, feature = "verif-models")))]
 use priority_queue::PriorityQueue;
+#[cfg(all(kani, feature = "verif-models"))]
+use crate::util::verif_collections::PriorityQueue;
 
+#[cfg(not(all(kani, feature = "verif-models")))]
 pub struct InternalPriorityQueue<I: Hash + Eq, P: Ord, S = RandomState>(pub PriorityQueue<I, P, S>);
+#[cfg(all(kani, feature = "verif-models"))]
+pub struct InternalPriorityQueue<I: Hash + Eq, P: Ord, S = RandomState>(
+    pub PriorityQueue<I, P>,
+    pub std::marker::PhantomData<S>,
+);
 
 impl<H: Hash + Eq, I: Ord, S> Deref for InternalPriorityQueue<H, I, S> {
+    #[cfg(not(all(kani, feature = "verif-models")))]
     type Target = PriorityQueue<H, I, S>;
+    #[cfg(all(kani, feature = "verif-models"))]
+    type Target = PriorityQueue<H, I>;
 
     fn deref(&self) -> &Self::Target {
         &self.0
@@ -32,7 +44,12 @@ impl<H: Hash + Eq + Allocative, I: Ord + Allocative, S> Allocative
 }
 
 impl<I: Hash + Eq, P: Ord> Default for InternalPriorityQueue<I, P, RandomState> {
+    #[cfg(not(all(kani, feature = "verif-models")))]
     fn default() -> InternalPriorityQueue<I, P, RandomState> {
         InternalPriorityQueue(PriorityQueue::new())
+    }
+    #[cfg(all(kani, feature = "verif-models"))]
+    fn default() -> InternalPriorityQueue<I, P, RandomState> {
+        InternalPriorityQueue(PriorityQueue::new(), std::marker::PhantomData)
     }
 }
